@@ -3,8 +3,11 @@ from __future__ import annotations
 
 from cfdpsim.runner import from_world
 from cfdpsim.world import UNACK, CK_TYPES, Cfg, World
+from cfdpsim.models import IntervalSet
 from props.monitors import Monitor
-from props.pops import Ctx, _start
+from pathlib import Path
+
+from props.pops import Ctx, _start, perturb_irrelevant_config
 
 RULE = (
     "unacknowledged transfers with CRC checksums; the link holds back a tape-chosen non-empty subset of the File Data "
@@ -32,10 +35,14 @@ class RecvCheckModel(Monitor):
         self.expiries = 0
         self.done = False
         self.outcome = None
+        self.delivered = IntervalSet()  # file data handed to the receiver so far (whatever it did with it)
+        self.size = len(w.src_bytes)
 
     def on_call(self, w, rec) -> None:
         if rec.ent != "b" or rec.hk != "dst" or self.done:
             return
+        if rec.inb_kind == "FD" and rec.exc is None:
+            self.delivered.add(rec.inb_info[1], rec.inb_info[1] + rec.inb_info[2])
         t = rec.t
         fin_inds = [i for i in rec.inds if i[0] == "finished"]
         lim = [f for f in rec.faults if f[2] == CHECK_LIMIT]
@@ -66,6 +73,14 @@ class RecvCheckModel(Monitor):
         w.probe("C13.recv_expiry")
         k = self.count + 1
         same = w.dst_bytes() == w.src_bytes
+        all_in = self.delivered.contains_range(0, self.size)
+        if all_in and not same and not (fin_inds or lim):
+            pass  # judged below: data that was handed over must be in the file
+        if all_in and not same:
+            # every byte was handed to the handler before (or in) this call, while it was still receiving
+            w.violate("C13.delivered_data_not_stored", f"k={k} L={self.L} in={rec.inb_kind}", f"file differs although all {self.size} bytes were delivered")
+            self.done = True
+            return
         if same:
             ok = fin_inds and fin_inds[0][2][:2] == (0, 0) and not lim
             if not ok:
@@ -178,6 +193,33 @@ def run_one(t):
                         frac = [C // 4, C // 2, C - 120][t.choose(3, "slot frac")]
                         return ("delay", k * (C + cfg.poll_ms) + frac)
                 return None
+        perturb_irrelevant_config(w, t)
+        if not sender_case and cfg.size > 0 and t.choose(4, "earlier episode") == 3:
+            # the receiver already went through a check-limit episode with this sender (first segment late, completed at
+            # the first expiry), then both sides idled for longer than a check interval
+            def h0(src_ent, dst, em, key):
+                if key == "a>b FD" and em.info[1] == 0:
+                    return ("delay", C // 2)
+                return None
+
+            w.link.hook = h0
+            req = w.put_request_obj(None)
+            req.dest_file = Path("dst/prev.bin")
+            w.call(w.a, "src", "put", arg=req)
+            w.start_polls()
+            w.run()
+            for ent, hk in ((w.a, "src"), (w.b, "dst")):
+                hh = ent.handlers[hk]
+                if hh.state.name != "IDLE":
+                    hh.reset()
+                    while hh.get_next_packet() is not None:
+                        pass
+                    ent.note_state(hk, type("S", (), {"busy": False, "tid": None})())
+            w.heap.clear()
+            w.pending = 0
+            w.polls_stopped = True
+            w.clock.now_ms += int(1.5 * C) + 7
+            w.probe("C13.earlier_episode")
         w.link.hook = hook
         w.monitors.append(mon)
         # slow, tape-paced sending in a third of the runs: the file data phase may then last longer than a check
@@ -188,7 +230,7 @@ def run_one(t):
         w.max_t = 10_000_000
         _start(ctx, None)
         slack = 300 if w.pacing == "regular" else 4 * cfg.poll_ms + 300  # an expiry is observed at the next poll
-        bound = (L + 3) * (C + slack) + 3000
+        bound = w.clock.t + (L + 3) * (C + slack) + 3000
 
         def until(w):
             return w.clock.t > bound
